@@ -107,7 +107,8 @@ Section Stat.
   End Trees.
 
   (* ---------- sites ---------- *)
-  Record mutation := mkmut { m_node : Z; m_state : Z }.
+  (* m_parent: index of the parent mutation within the site's list, -1 = TSK_NULL *)
+  Record mutation := mkmut { m_node : Z; m_state : Z; m_parent : Z }.
   Record site := mksite { st_pos : Q; st_anc : Z; st_muts : list mutation; st_parent : list Z }.
 
   (* derived state of the last mutation (list order = parents first) sitting on node u *)
@@ -141,11 +142,35 @@ Section Stat.
     qsum (map (fun a => f (allele_weight s a))
               (if polarised then filter (fun a => negb (a =? st_anc s)%Z) (alleles s) else alleles s)).
 
+  (* ---- port of get_allele_weights / compute_general_stat_site_result
+          (c/tskit/trees.c 1450-1577): the allele table starts with the ancestral allele
+          holding the total weight; every mutation adds the state of its node to its own
+          allele and subtracts it from the allele of its parent mutation (or the ancestral
+          allele).  The node states are the specification's [state]. ---- *)
+  Fixpoint tbl_add (tbl : list (Z * vec)) (a : Z) (x : vec) (sign : bool) : list (Z * vec) :=
+    match tbl with
+    | [] => [(a, if sign then x else vsub (vzero k) x)]
+    | (b, w) :: t => if (a =? b)%Z then (b, if sign then vadd w x else vsub w x) :: t
+                     else (b, w) :: tbl_add t a x sign
+    end.
+  Definition allele_weights_c (s : site) : list (Z * vec) :=
+    fold_left (fun tbl m =>
+                 let x := state k (st_parent s) W (m_node m) in
+                 let tbl1 := tbl_add tbl (m_state m) x true in
+                 let alt := if (m_parent m <? 0)%Z then st_anc s
+                            else m_state (znth (st_muts s) (m_parent m) (mkmut 0 (st_anc s) (-1))) in
+                 tbl_add tbl1 alt x false)
+              (st_muts s) [(st_anc s, total_weight k W)].
+  Definition site_val_c (polarised : bool) (s : site) : Q :=
+    let tbl := allele_weights_c s in
+    qsum (map (fun aw => f (snd aw)) (if polarised then tl tbl else tbl)).
+
   Definition in_window (a b x : Q) : bool := Qle_bool a x && Qltb x b.
 
   Definition site_stat_gen (val : site -> Q) (sites : list site) (a b : Q) : Q :=
     qsum (map (fun s => if in_window a b (st_pos s) then val s else 0) sites).
   Definition site_stat (polarised : bool) := site_stat_gen (site_val polarised).
+  Definition site_stat_c (polarised : bool) := site_stat_gen (site_val_c polarised).
 End Stat.
 
 (* ---------- numpy.array_split and the Python chunkers ---------- *)
